@@ -490,7 +490,7 @@ pub fn map_op<const N: usize>(cx: &mut Cx, m: &mut MapN<N>, op: &MapOp) -> Strin
             drop(x);
             "()".into()
         }
-        MapOp::CloneTo(_) | MapOp::Eq(_) | MapOp::FromIter(..) => unreachable!(),
+        MapOp::CloneTo(_) | MapOp::Eq(_) | MapOp::FromIter(..) | MapOp::Serde(_) => unreachable!(),
     }
 }
 
@@ -908,4 +908,40 @@ pub fn set_pred<const N: usize, const M: usize>(a: &SetN<N>, b: &SetN<M>, op: &S
 
 pub fn set_sub<const N: usize, const M: usize>(a: &SetN<N>, b: &SetN<M>) -> SetN<N> {
     mm(|| a - b)
+}
+
+/// serde round trip (feature `serde`): bincode's legacy configuration writes a u64 length prefix
+/// followed by the entries, every integer as 8 little-endian bytes — so the announced length and
+/// the number of entries actually emitted can be read off the bytes.
+#[cfg(feature = "serde")]
+pub mod serde_rt {
+    use crate::regs::{MapN, SetN};
+    use bincode::serde::{decode_from_slice, encode_into_slice};
+
+    pub fn encode_map<const N: usize>(m: &MapN<N>) -> Option<(u64, usize, Vec<u8>)> {
+        let mut buf = [0u8; 4096];
+        let n = crate::ctl::mm(|| encode_into_slice(m, &mut buf, bincode::config::legacy())).ok()?;
+        let ann = u64::from_le_bytes(buf[..8].try_into().ok()?);
+        Some((ann, (n - 8) / 16, buf[..n].to_vec()))
+    }
+    pub fn decode_map<const N: usize>(b: &[u8]) -> Option<MapN<N>> {
+        let r: Result<(MapN<N>, usize), _> = crate::ctl::mm(|| decode_from_slice(b, bincode::config::legacy()));
+        match r {
+            Ok((m, used)) if used == b.len() => Some(m),
+            _ => None,
+        }
+    }
+    pub fn encode_set<const N: usize>(m: &SetN<N>) -> Option<(u64, usize, Vec<u8>)> {
+        let mut buf = [0u8; 4096];
+        let n = crate::ctl::mm(|| encode_into_slice(m, &mut buf, bincode::config::legacy())).ok()?;
+        let ann = u64::from_le_bytes(buf[..8].try_into().ok()?);
+        Some((ann, (n - 8) / 8, buf[..n].to_vec()))
+    }
+    pub fn decode_set<const N: usize>(b: &[u8]) -> Option<SetN<N>> {
+        let r: Result<(SetN<N>, usize), _> = crate::ctl::mm(|| decode_from_slice(b, bincode::config::legacy()));
+        match r {
+            Ok((m, used)) if used == b.len() => Some(m),
+            _ => None,
+        }
+    }
 }
